@@ -482,7 +482,7 @@ fn exercise_accessors(rep: &mut Report, bl: &BlockList, origin: &str, bytes: &[u
     }
 }
 
-fn drive_metadata_bytes(rep: &mut Report, bytes: &[u8], origin: &str, class: &str) {
+pub fn drive_metadata_bytes(rep: &mut Report, bytes: &[u8], origin: &str, class: &str) {
     rep.case_begin_sized(&format!("{class}: {origin} len {} fnv {:016x}", bytes.len(), fnv(bytes)), bytes.len());
     rep.eval();
     rep.count("input_class", class);
@@ -675,7 +675,7 @@ pub fn extreme_section(rng: &mut Rng) -> (Vec<u8>, String) {
 }
 
 /// a well-formed cue sheet with exactly one element perturbed (earlier index, extreme number, ...)
-fn nearly_valid_cue_text(rng: &mut Rng) -> (u64, String) {
+pub fn nearly_valid_cue_text(rng: &mut Rng) -> (u64, String) {
     let cd = rng.chance(2, 3);
     let ntracks = rng.usize(1, 6);
     let unit: u64 = if cd { 588 } else { 1 };
@@ -729,7 +729,7 @@ fn nearly_valid_cue_text(rng: &mut Rng) -> (u64, String) {
 }
 
 /// cue sheet text with odd / extreme numbers, orders and totals
-fn hostile_cue_text(rng: &mut Rng) -> (u64, String) {
+pub fn hostile_cue_text(rng: &mut Rng) -> (u64, String) {
     if rng.chance(2, 3) {
         return nearly_valid_cue_text(rng);
     }
@@ -817,6 +817,59 @@ fn hostile_cue_text(rng: &mut Rng) -> (u64, String) {
     (total, text)
 }
 
+/// cue sheet text import, then every accessor and serialisation of the imported sheet
+pub fn drive_cue_text(rep: &mut Report, total: u64, text: &str) {
+    rep.eval();
+    rep.case_begin(&format!("cue text total {total}: {}", text.replace('\n', "|")));
+    rep.count("input_class", "cue-text");
+    let obs = mon::observe(|| Cuesheet::parse(total, &text));
+    rep.observe_cost(obs.cpu_us, obs.peak_alloc);
+    let replay = || J::obj().set("total", total).set("text", text);
+    match obs.result {
+        Err(p) => rep.violation("panic", format!("cue-parse:{}", p.signature()), format!("Cuesheet::parse: {} at {}", p.msg, p.location), replay()),
+        Ok(Err(e)) => rep.count("cue_parse", format!("{e:?}")),
+        Ok(Ok(c)) => {
+            rep.count("cue_parse", "accepted");
+            rep.nontrivial(hash_str(&text) ^ total);
+            // every accessor on the imported sheet, and serialisation must not panic either
+            let r = mon::guard(|| {
+                let _ = c.track_sample_ranges().count();
+                let _ = c.track_byte_ranges(2, 16).count();
+                let _ = c.tracks().count();
+                let _ = c.display("f").to_string();
+                let mut bl = BlockList::new(rand_streaminfo(&mut Rng::new(1)));
+                bl.insert(c.clone());
+                let mut buf = vec![];
+                let _ = metadata::write_blocks(&mut buf, bl.blocks());
+            });
+            if let Err(p) = r {
+                rep.violation("panic", format!("cue-accessor:{}", p.signature()), format!("accessor / serialisation of an imported cue sheet panicked: {} at {}", p.msg, p.location), replay());
+            }
+        }
+    }
+}
+
+/// picture sniffers: `Picture::new` on an image header
+pub fn drive_image(rep: &mut Report, img: &[u8]) {
+    let img = img.to_vec();
+    rep.eval();
+    rep.case_begin(&format!("image {}", img.iter().take(40).map(|b| format!("{b:02x}")).collect::<String>()));
+    rep.count("input_class", "image");
+    let obs = mon::observe(|| Picture::new(PictureType::FrontCover, "d", img.clone()));
+    rep.observe_cost(obs.cpu_us, obs.peak_alloc);
+    match obs.result {
+        Err(p) => rep.violation("panic", format!("picture-sniff:{}", p.signature()), format!("Picture::new: {} at {}", p.msg, p.location), J::obj().set("image", J::hex(&img))),
+        Ok(Err(e)) => rep.count("image_sniff", format!("{e:?}").split('(').next().unwrap_or("").to_string()),
+        Ok(Ok(p)) => {
+            rep.count("image_sniff", format!("accepted:{}", p.media_type));
+            rep.nontrivial(fnv(&img));
+        }
+    }
+    if obs.peak_alloc > mon::alloc_bound(img.len()) {
+        rep.violation("alloc", "alloc:Picture::new", format!("peak allocation {}", obs.peak_alloc), J::obj().set("image", J::hex(&img)));
+    }
+}
+
 pub fn run_c12(ctx: &Ctx, rep: &mut Report) {
     if let Some(path) = &ctx.replay {
         let text = std::fs::read_to_string(path).expect("replay");
@@ -832,6 +885,27 @@ pub fn run_c12(ctx: &Ctx, rep: &mut Report) {
         for v in &rep.violations {
             eprintln!("VIOLATION-DETAIL {} {}: {}", v.kind, v.sig, v.detail);
         }
+        return;
+    }
+    if ctx.extra.iter().any(|a| a == "--tiny") {
+        // Miri tier: a few small sections / cue texts / image headers per process
+        let mut rng = ctx.rng(0x7112);
+        let mut done = 0;
+        let mut tries = 0;
+        while done < 2 && tries < 200 {
+            tries += 1;
+            let (b, what) = extreme_section(&mut rng);
+            if b.len() <= 400 {
+                drive_metadata_bytes(rep, &b, &what, "extreme-field");
+                done += 1;
+            }
+        }
+        let (total, text) = if ctx.shard % 2 == 0 { nearly_valid_cue_text(&mut rng) } else { hostile_cue_text(&mut rng) };
+        if text.len() < 600 {
+            drive_cue_text(rep, total, &text);
+        }
+        drive_image(rep, &rm::png_header(rng.next() as u32, rng.next() as u32, *rng.pick(&[1u8, 8, 16, 255]), *rng.pick(&[0u8, 2, 3, 6]), Some(9)));
+        drive_image(rep, &rm::jpeg_header(*rng.pick(&[8u8, 12, 255]), rng.next() as u16, rng.next() as u16, *rng.pick(&[1u8, 3, 255]), 0xC0, &[(0xE0, 16)]));
         return;
     }
     let mut rng = ctx.rng(0xC12);
@@ -884,34 +958,7 @@ pub fn run_c12(ctx: &Ctx, rep: &mut Report) {
             5 => {
                 // cue sheet text import
                 let (total, text) = hostile_cue_text(&mut rng);
-                rep.eval();
-                rep.case_begin(&format!("cue text total {total}: {}", text.replace('\n', "|")));
-                rep.count("input_class", "cue-text");
-                let obs = mon::observe(|| Cuesheet::parse(total, &text));
-                rep.observe_cost(obs.cpu_us, obs.peak_alloc);
-                let replay = || J::obj().set("total", total).set("text", text.as_str());
-                match obs.result {
-                    Err(p) => rep.violation("panic", format!("cue-parse:{}", p.signature()), format!("Cuesheet::parse: {} at {}", p.msg, p.location), replay()),
-                    Ok(Err(e)) => rep.count("cue_parse", format!("{e:?}")),
-                    Ok(Ok(c)) => {
-                        rep.count("cue_parse", "accepted");
-                        rep.nontrivial(hash_str(&text) ^ total);
-                        // every accessor on the imported sheet, and serialisation must not panic either
-                        let r = mon::guard(|| {
-                            let _ = c.track_sample_ranges().count();
-                            let _ = c.track_byte_ranges(2, 16).count();
-                            let _ = c.tracks().count();
-                            let _ = c.display("f").to_string();
-                            let mut bl = BlockList::new(rand_streaminfo(&mut Rng::new(1)));
-                            bl.insert(c.clone());
-                            let mut buf = vec![];
-                            let _ = metadata::write_blocks(&mut buf, bl.blocks());
-                        });
-                        if let Err(p) = r {
-                            rep.violation("panic", format!("cue-accessor:{}", p.signature()), format!("accessor / serialisation of an imported cue sheet panicked: {} at {}", p.msg, p.location), replay());
-                        }
-                    }
-                }
+                drive_cue_text(rep, total, &text);
             }
             _ => {
                 // picture sniffers
@@ -943,22 +990,7 @@ pub fn run_c12(ctx: &Ctx, rep: &mut Report) {
                     }
                     _ => rng.rbytes(0, 64),
                 };
-                rep.eval();
-                rep.case_begin(&format!("image {}", img.iter().take(40).map(|b| format!("{b:02x}")).collect::<String>()));
-                rep.count("input_class", "image");
-                let obs = mon::observe(|| Picture::new(PictureType::FrontCover, "d", img.clone()));
-                rep.observe_cost(obs.cpu_us, obs.peak_alloc);
-                match obs.result {
-                    Err(p) => rep.violation("panic", format!("picture-sniff:{}", p.signature()), format!("Picture::new: {} at {}", p.msg, p.location), J::obj().set("image", J::hex(&img))),
-                    Ok(Err(e)) => rep.count("image_sniff", format!("{e:?}").split('(').next().unwrap_or("").to_string()),
-                    Ok(Ok(p)) => {
-                        rep.count("image_sniff", format!("accepted:{}", p.media_type));
-                        rep.nontrivial(fnv(&img));
-                    }
-                }
-                if obs.peak_alloc > mon::alloc_bound(img.len()) {
-                    rep.violation("alloc", "alloc:Picture::new", format!("peak allocation {}", obs.peak_alloc), J::obj().set("image", J::hex(&img)));
-                }
+                drive_image(rep, &img);
             }
         }
     }
